@@ -383,6 +383,17 @@ Proof.
     + destruct (Z.eqb_spec vt 1), (Z.eqb_spec vt 2), (Z.eqb_spec vt 3); simpl in Et; try discriminate; lia.
 Qed.
 
+Lemma const_metric_ct_lemma d vt v lvs :
+  (vt = 1 -> new_const_metric_ct d vt v lvs = new_const_metric d vt v lvs) /\
+  (vt <> 1 -> exists e, new_const_metric_ct d vt v lvs = Err e).
+Proof.
+  unfold new_const_metric_ct, new_const_metric. split.
+  - intros ->. destruct (d_err d); [reflexivity|]. destruct (validate_label_values lvs _); reflexivity.
+  - intros H. destruct (d_err d) as [e|]; [exists e; reflexivity|].
+    destruct (validate_label_values lvs _) as [e|]; [exists e; reflexivity|].
+    destruct (Z.eqb_spec vt 1); [contradiction|]. exists ErrCtType. reflexivity.
+Qed.
+
 (* =========================================================== native: decoder facts *)
 Local Notation int64 z := (-9223372036854775808 <= z < 9223372036854775808).
 
